@@ -169,6 +169,10 @@ def _check(pid, tier, sc, t0, extra_hook, sink=None):
     tie_broken = []   # descriptions
     if proof["problems"]:
         tie_broken.append(dict(kind="proof", detail=proof["problems"]))
+    import factcheck
+    facts = factcheck.run(bindir if os.path.exists(os.path.join(bindir, "factcheck")) else bindir, pid)
+    if facts["problems"]:
+        tie_broken.append(dict(kind="extracted-facts", detail=facts["problems"][:6]))
     # canaries: deliberately wrong models must be told apart from the implementation
     canary_note = run_canaries(bindir, sc)
     if canary_note:
